@@ -28,29 +28,40 @@ def run(cmd, cwd, env=None, timeout=3600):
     return p.returncode, p.stdout
 
 
-def run_checks(patch, checks):
+def run_checks(patch, checks, three_way=False):
     # /repo is shared with sweeps and the mutant sweep: one writer at a time
     with open("/var/tmp/repo.lock", "w") as lk:
         fcntl.flock(lk, fcntl.LOCK_EX)
-        return run_checks_locked(patch, checks)
+        return run_checks_locked(patch, checks, three_way)
 
 
-def run_checks_locked(patch, checks):
+def run_checks_locked(patch, checks, three_way=False):
     st, o = run("git status --porcelain --untracked-files=no", "/repo")
     if o.strip():
         print("/repo is not clean, refusing"); return None
     caught = {}
     try:
-        rc, o = run(["git", "apply", patch], "/repo")
-        if rc != 0:
-            print("patch does not apply to /repo:", o); return None
+        if three_way:
+            # repairs made since the change was filed rewrote neighbouring lines: a three-way merge of the
+            # patch, kept only if it is free of conflicts and still builds
+            rc, o = run(["git", "apply", "--3way", patch], "/repo")
+            st, so = run("git status --porcelain --untracked-files=no", "/repo")
+            if rc != 0 or any(l[:2] in ("UU", "AA", "DU", "UD") for l in so.splitlines()):
+                return "stale"
+            rc, o = run("cargo check -q --offline -p darling_core 2>&1 | tail -3", "/repo", {"CARGO_TARGET_DIR": "/var/tmp/mutsweep-target", "RUSTFLAGS": "-Awarnings"})
+            if "error" in o:
+                return "stale"
+        else:
+            rc, o = run(["git", "apply", patch], "/repo")
+            if rc != 0:
+                print("patch does not apply to /repo:", o); return None
         for c in checks:
             rc, o = run(["/verif/check", c], "/verif", {"VF_EVIDENCE_DIR": "/verif/work/seeded-evidence", "VF_REPLAY_DIR": "/verif/work/seeded-replays"})
             lines = [l[:300] for l in o.splitlines() if l.startswith("VIOLATION")]
             caught[c] = {"exit": rc, "violations": [l.split("signature=")[1].split(" ::")[0] if "signature=" in l else l for l in lines][:8], "first": lines[0] if lines else ""}
             print(f"check {c}: exit {rc}, {len(lines)} violation lines", "| " + lines[0][:220] if lines else "")
     finally:
-        run("git checkout -- .", "/repo")
+        run("git reset -q --hard HEAD", "/repo")
     return caught
 
 
@@ -97,12 +108,13 @@ def recheck_all():
         meta = json.load(open(mf))
         patch = os.path.join(d, "patch.diff")
         rc, o = run(["git", "apply", "--check", patch], "/repo")
-        if rc != 0:
-            tally["stale"] += 1
-            print(f"stale   {name} (patch no longer applies)")
-            continue
+        three_way = rc != 0
         checks = meta.get("caught_by") or [meta["property"]]
-        caught = run_checks(patch, checks[:1])
+        caught = run_checks(patch, checks[:1], three_way)
+        if caught == "stale":
+            tally["stale"] += 1
+            print(f"stale   {name} (patch no longer applies, three-way merge conflicts or does not build)")
+            continue
         if caught is None:
             print(f"error   {name}")
             continue
@@ -112,7 +124,7 @@ def recheck_all():
             print(f"caught  {name} by {hit[0]} :: {caught[hit[0]]['violations'][:1]}")
         else:
             # one more try with every check that caught it originally
-            caught = run_checks(patch, checks)
+            caught = run_checks(patch, checks, three_way)
             hit = [c for c, v in (caught or {}).items() if v["exit"] == 1]
             if hit:
                 tally["caught"] += 1
